@@ -703,8 +703,18 @@ class _Sub(ast.NodeTransformer):
 
 
 def _copy(e):
-    import copy
-    return copy.deepcopy(e)
+    """Structural copy of an expression: the fields of the grammar only
+    (a deepcopy would follow the parent links the model attaches to every
+    node and copy the whole module each time)."""
+    if isinstance(e, list):
+        return [_copy(x) for x in e]
+    if not isinstance(e, ast.AST):
+        return e
+    new = type(e)(**{f: _copy(getattr(e, f, None)) for f in e._fields})
+    for a in ('lineno', 'col_offset', 'end_lineno', 'end_col_offset'):
+        if hasattr(e, a):
+            setattr(new, a, getattr(e, a))
+    return new
 
 
 def _subst(e, name, repl):
